@@ -94,6 +94,21 @@ class ExprGen(object):
             off += nb
         self.lines.append("  %d [+1]  Ee  en" % off)
         off += 1
+        # two fields of one structure type: members of equal name reached through different fields
+        self.sub_type = None
+        if r.random() < 0.5:
+            members = [("v", r.choice(["Int", "UInt"]), 1), ("w", r.choice(["Int", "UInt"]), r.choice([1, 2])), ("x", "Int", r.choice([1, 2, 4]))]
+            sub_lines = ["struct Sub:"]
+            spos = 0
+            for mn, mk, nb in members:
+                sub_lines.append("  %d [+%d]  %s  %s" % (spos, nb, mk, mn))
+                spos += nb
+            self.sub_type = "\n".join(sub_lines) + "\n"
+            for fn_ in ("sa", "sb"):
+                self.lines.append("  %d [+%d]  Sub  %s" % (off, spos, fn_))
+                off += spos
+                for mn, mk, nb in members:
+                    self.leaves.append(Leaf("%s.%s" % (fn_, mn), mk, nb * 8, None))
         self.end = off
         self.params = []
         if r.random() < 0.5:
@@ -203,6 +218,16 @@ class ExprGen(object):
                 e = self.int_expr(d)
                 self.virtuals.append((name, "int"))
             body.append("  let %s = %s" % (name, e))
+        # products of members of equal name reached through different fields, and true squares
+        if self.sub_type:
+            for i in range(r.choice([1, 2, 3])):
+                m1, m2 = r.choice("vwx"), r.choice("vwx")
+                f1, f2 = r.choice(["sa", "sb"]), r.choice(["sa", "sb"])
+                if r.random() < 0.6:
+                    m2 = m1
+                name = "cp%d" % i
+                body.append("  let %s = %s.%s %s %s.%s" % (name, f1, m1, r.choice(["*", "*", "*", "-", "+"]), f2, m2))
+                self.virtuals.append((name, "int"))
         # an offset / size / condition position
         if r.random() < 0.6:
             small = [l.name for l in self.leaves if l.kind == "UInt" and l.bits <= 16]
@@ -213,7 +238,7 @@ class ExprGen(object):
         params = ""
         if self.params:
             params = "(%s)" % ", ".join("%s: %s:%d" % (p.name, p.kind, p.bits) for p in self.params)
-        text = '[$default byte_order: "LittleEndian"]\nenum Ee:\n  AA = 1\n  BB = 2\nstruct Foo%s:\n%s\n' % (params, "\n".join(body))
+        text = '[$default byte_order: "LittleEndian"]\nenum Ee:\n  AA = 1\n  BB = 2\n%sstruct Foo%s:\n%s\n' % (self.sub_type or "", params, "\n".join(body))
         return text, tight
 
 
@@ -249,7 +274,14 @@ class Evaluator(object):
                 return self.ev(obj.value, rho)
             return self.field_value(obj, rho)
         if w == "field_reference":
-            obj = ir_util.find_object(e.field_reference.path[-1], self.ir)
+            path = e.field_reference.path
+            if len(path) > 1:
+                # a member reached through a field (sa.v): distinct from the same member of another field (sb.v)
+                key = ".".join(p_.canonical_name.object_path[-1] for p_ in path)
+                if key in rho:
+                    return rho[key]
+                # members of anonymous bits are leaves named by their own (unique) name
+            obj = ir_util.find_object(path[-1], self.ir)
             return self.field_value(obj, rho)
         if w == "function":
             return self.fn(e, rho)
@@ -399,7 +431,7 @@ def check_module(stats, rnd, text, leaves, bools, tight, n_random):
         except Unknown:
             stats.classes["node-not-evaluated"] += 1
             continue
-        leaves_in = len(set(re.findall(r"[a-z]+[0-9]+_[0-9]+|pa|pb|fl[0-9]", et)))
+        leaves_in = len(set(re.findall(r"[a-z]+[0-9]+_[0-9]+|pa|pb|fl[0-9]|s[ab]\.[vwx]", et)))
         nonconst = len(set(vals)) > 1
         stats.evaluations += len(envs) - 1
         stats.case([et, text], nonconst and leaves_in >= 2, ["node:" + (e.which_expression if e.which_expression != "function" else str(e.function.function).split(".")[-1]), t], sample={"expression": et, "inferred": (dict(min=e.type.integer.minimum_value, max=e.type.integer.maximum_value, mod=e.type.integer.modulus, rem=e.type.integer.modular_value) if t == "integer" else {"value": e.type.boolean.value if e.type.boolean.has_field("value") else None}), "values_seen": sorted(set(int(v) for v in vals))[:6]})
